@@ -792,23 +792,22 @@ class Mailbox:
                 #
                 if not self.executing_tasks:
                     async with self.mailbox.lock_folder():
-                        changed = await self.check_new_msgs_and_flags()
+                        await self.check_new_msgs_and_flags()
 
-                    # Need to update this command's msg_set_as_set before we
-                    # add it to the list of executing commands (the list is
-                    # empty so we only need to update this one command)
-                    #
-                    if changed:
-                        try:
-                            imap_cmd.msg_set_as_set = (
-                                self.msg_set_to_msg_seq_set(
-                                    imap_cmd.msg_set, imap_cmd.uid_command
-                                )
-                            )
-                        except Bad as exc:
-                            imap_cmd.error = exc
-                            imap_cmd.ready.set()
-                            continue
+                # Need to update this command's msg_set_as_set before we add
+                # it to the list of executing commands: the mailbox may have
+                # changed since it was computed above, either because of the
+                # resync or because a command we had to wait for (an EXPUNGE
+                # for example) removed messages.
+                #
+                try:
+                    imap_cmd.msg_set_as_set = self.msg_set_to_msg_seq_set(
+                        imap_cmd.msg_set, imap_cmd.uid_command
+                    )
+                except Bad as exc:
+                    imap_cmd.error = exc
+                    imap_cmd.ready.set()
+                    continue
 
                 self.executing_tasks.append(imap_cmd)
                 imap_cmd.ready.set()
